@@ -161,11 +161,23 @@ impl ConnectionRunner {
     where
         S: futures::AsyncRead + futures::AsyncWrite + Unpin + 'static,
     {
+        // Each out message is written as a single frame, and a frame that
+        // doesn't fit in the write buffer is refused, which closes the
+        // connection. Make sure that the largest messages sent to peers fit:
+        // forwarded offers and answers (their size is limited by
+        // websocket_max_message_size of the sending peer, with some room for
+        // different JSON escaping) and scrape responses (each swarm worker
+        // reports up to max_scrape_torrents torrents, an info hash takes up
+        // to 122 bytes as a JSON string, the statistics up to 100 bytes)
+        let max_write_buffer_size = (self.config.network.websocket_write_buffer_size * 3)
+            .max(self.config.network.websocket_max_message_size * 2)
+            .max(self.config.protocol.max_scrape_torrents * self.config.swarm_workers * 256 + 1024);
+
         let ws_config = tungstenite::protocol::WebSocketConfig::default()
             .max_frame_size(Some(self.config.network.websocket_max_frame_size))
             .max_message_size(Some(self.config.network.websocket_max_message_size))
             .write_buffer_size(self.config.network.websocket_write_buffer_size)
-            .max_write_buffer_size(self.config.network.websocket_write_buffer_size * 3);
+            .max_write_buffer_size(max_write_buffer_size);
         let stream = async_tungstenite::accept_async_with_config(stream, Some(ws_config)).await?;
         let (ws_out, ws_in) = futures::StreamExt::split(stream);
 
